@@ -129,9 +129,10 @@ Definition ex_v : value :=
 Example C06_nonvacuous :
   wf ex_T = true /\ typed ex_T ex_v = true /\ width ex_T = 57 /\ pack ex_T ex_v = 0x156ca8642f17935 /\
   check_to_bits ex_T (map rpath (leaf_ranges ex_T)) = true /\ check_from_bits ex_T (range_tree ex_T 0) = true /\
-  In ([Fld 1; Idx 0; Idx 0], 25, 29) (leaf_ranges ex_T) /\ In ([Fld 1; Idx 2; Idx 1], 45, 49) (leaf_ranges ex_T) /\
+  existsb (rng_eqb ([Fld 1; Idx 0; Idx 0], 25, 29)) (leaf_ranges ex_T) = true /\
+  existsb (rng_eqb ([Fld 1; Idx 2; Idx 1], 45, 49)) (leaf_ranges ex_T) = true /\
   above [Fld 1; Idx 2; Idx 1] [Fld 1; Idx 0; Idx 0] /\ above [Fld 0] [Fld 4].
-Proof. vm_compute. repeat split; try reflexivity; tauto || lia. Qed.
+Proof. repeat split; try (vm_compute; reflexivity); cbn; lia. Qed.
 Example C06_nonvacuous_1023 : wf (SStruct [SBits 1000; SList 23 (SBits 1)]) = true /\ width (SStruct [SBits 1000; SList 23 (SBits 1)]) = 1023.
 Proof. vm_compute. split; reflexivity. Qed.
 Example C06_nonvacuous_store :
